@@ -4,6 +4,7 @@
    evaluates on the observations of the real algorithms. *)
 From Coq Require Import ZArith QArith Qminmax List Bool.
 From FV Require Import Common.ListX Common.CMonoid Common.NanQ Common.QVec Model.C17_Model Proofs.C17_Proofs.
+From FV Require gen.Gen_c17_agnostic gen.Gen_c17_hyp_cluster gen.Gen_c17_apfl gen.Gen_c17_mime_lite gen.Gen_c17_optimizers gen.Gen_tree_util.
 Import ListNotations.
 Local Open Scope Q_scope.
 
@@ -88,6 +89,39 @@ Theorem C17_ignore_grads : forall (base : list (K * V) -> S -> list (K * V) -> S
 Proof. exact (ignore_apply_spec named keqb keqb_eq). Qed.
 End C17_ignore.
 
+(* ---- T: ties to the code translated on this run (tools/anchors/c17_algorithms.py, tree_util.py) ---- *)
+(* update_domain_weights('eg') as translated IS eg_update on finite inputs (e = exp(lr * loss)) *)
+Theorem C17_eg_is_the_code : forall w e, ~ qsum (eg_raw w e) == 0 ->
+  Gen_c17_agnostic.update_domain_weights_eg (map Some w) (map Some e) = map Some (eg_update w e).
+Proof. exact eg_matches_code. Qed.
+
+(* tree_clip_by_global_norm as translated IS clip_delta (the norm being supplied) *)
+Theorem C17_clip_is_the_code : forall (l2 : list NanQ.t -> NanQ.t) bound d n, 0 <= bound -> l2 (map Some d) = Some n ->
+  Gen_tree_util.tree_clip_by_global_norm l2 (map Some d) (Some bound) = map Some (clip_delta bound d n).
+Proof. exact clip_matches_code. Qed.
+
+(* the window shift, the None-branch of the HypCluster server step, the `n > 0` guard of the cluster
+   average and the clip bounds of APFL ARE the translated definitions *)
+Theorem C17_model_uses_translated_code :
+  (forall A (win : list A) x, window_update win x = Gen_c17_agnostic.window_shift win x) /\
+  (forall S (opt : vec -> S -> vec -> S * vec) d s p,
+     hyp_server_step opt d s p = Gen_c17_hyp_cluster.hyp_server_step_gen opt d s p) /\
+  (forall st, cluster_delta st = Gen_c17_hyp_cluster.cluster_delta_gen (fun s n => vscale (/ n) s) (fst st) (snd st)) /\
+  (forall x, clip01 x = Qmin (Qmax x Gen_c17_apfl.apfl_clip_lo) Gen_c17_apfl.apfl_clip_hi).
+Proof. exact model_uses_translated_code. Qed.
+
+(* structure of the code around those kernels *)
+Theorem C17_code_structure :
+  Gen_c17_agnostic.server_update_passes_weights_through = true /\
+  Gen_c17_hyp_cluster.accumulate_into_assigned_cluster = true /\
+  Gen_c17_hyp_cluster.assignment_is_argmin = true /\
+  Gen_c17_mime_lite.clip_before_aggregate = true /\ Gen_c17_mime_lite.clip_uses_global_norm = true /\
+  Gen_c17_mime_lite.mean_is_rescaled_again = false /\
+  Gen_c17_apfl.clip_follows_optimizer_step = true /\ Gen_c17_apfl.table_is_copied_then_set = true /\
+  Gen_c17_apfl.apfl_clip_lo == 0 /\ Gen_c17_apfl.apfl_clip_hi == 1 /\
+  Gen_c17_optimizers.ignore_masks_named_to_none = true /\ Gen_c17_optimizers.ignore_restores_named_from_input = true.
+Proof. exact code_structure. Qed.
+
 (* non-vacuity: concrete instances of every hypothesis *)
 Example C17_example :
   list_beq Qeq_bool (eg_update [1 # 2; 1 # 2] [2; 1]) [2 # 3; 1 # 3] = true /\
@@ -113,3 +147,7 @@ Print Assumptions C17_cluster_updated_from_own_clients.
 Print Assumptions C17_empty_cluster_untouched.
 Print Assumptions C17_mimelite_aggregates_clipped.
 Print Assumptions C17_ignore_grads.
+Print Assumptions C17_eg_is_the_code.
+Print Assumptions C17_clip_is_the_code.
+Print Assumptions C17_model_uses_translated_code.
+Print Assumptions C17_code_structure.
